@@ -81,7 +81,12 @@ class KeySim:
             ops.append(op)
             if kind in ('copy', 'copy_deep', 'copy_module', 'pickle', 'persist') or kind in NONGEOM_EDITS or kind in GEOM_EDITS:
                 n_handles += 1
-        fresh = [rng.randrange(1, 100000) for _ in range(2)] if rng.random() < (0.02 if not big else 0.008) else []
+        p_fresh = 0.02 if not big else 0.008
+        if world['conv'] == 'ugrid' and (len(world.get('tables') or []) >= 2 or world.get('face_coords')):
+            p_fresh *= 6      # several optional geometry variables: the order they are hashed in must not depend on the hash seed
+        fresh = [rng.randrange(1, 100000) for _ in range(2)] if rng.random() < p_fresh else []
+        if fresh and not any(m != 'memory' for m in mats):
+            mats = mats + ['file']
         return {'engine': self.name, 'world': world, 'mats': mats, 'ops': ops, 'fresh_hashseeds': fresh}
 
     def shrink(self, plan):
